@@ -201,7 +201,8 @@ def run(ctx, rep):
         rep.check(v == want, "R13.4", "GRAY_50:" + name, "%s::GRAY_50 luma must be (MAX_LUMA+1)/2 = %d (On exactly for the upper half), found %r" % (name, want, v))
     # bool -> BinaryColor and map_color
     mc = prog.fn_by_path(PC + "binary_color::BinaryColor::map_color")
-    P0 = Paths(prog)
+    BC_PRED = lambda g: g.name in ("is_on", "is_off") and "BinaryColor" in g.path     # `if self.is_on()` for `match self`
+    P0 = Paths(prog, inline=lambda g: prog.is_new(g) or BC_PRED(g))
     table = {}
     try:
         for sm in P0.of(mc):
@@ -244,7 +245,8 @@ def _const_int(prog, t):
 
 def _paths(prog):
     if not hasattr(prog, "_c13_paths"):
-        prog._c13_paths = Paths(prog, inline=lambda g: prog.is_new(g) or g.path.endswith("BinaryColor::map_color") or ("From<bool>" in g.path and "BinaryColor" in g.path))
+        prog._c13_paths = Paths(prog, inline=lambda g: prog.is_new(g) or g.path.endswith("BinaryColor::map_color") or ("From<bool>" in g.path and "BinaryColor" in g.path)
+                                or (g.name in ("is_on", "is_off") and "BinaryColor" in g.path))
     return prog._c13_paths
 
 
